@@ -22,26 +22,32 @@
         cds_record_translation        a `/translation` written on request is C05's `Model.translate` of the source CDS
                                       with table 11 (prokaryotic) / 0 (eukaryotic); C05 (Props/C05.lean, T3b) proves that
                                       this is the standard-code translation of the CDS codons.
-    T3  grouping_modes_agree_partial  on feature lists that are fixed points of the parser's own sort and consist of
-        parse_modes_agree_partial     one chain per locus tag (gene, then mRNA/CDS records, or one non-coding
-                                      transcript), Sorted, LocusTag and Hybrid produce the same groups, hence the same
-                                      gene models.  PARTIAL: the chains' tags are assumed to increase along the file
-                                      (locus tags numbered along the genome, as in INSDC files), which makes the
-                                      locus-tag sort the identity; the general statement (tags in any order, groups
-                                      equal up to order) is checked on the real parser by the `gbm` leg.
-    T2  (round trip `parseModel (writeModel c) = expected c`) is NOT proved here.  Proved parts: T1 (what is written) and
-        T3 (how it is regrouped).  The conversion of one group to a gene model (exon sort, CDS clipping through
-        `intersection`, frames through `construct_frames_from_location`, identifiers from qualifiers) is tied to the real
-        code by the `gbp`/`gbrt` correspondence and judged by `Spec.Gb.rtViolations` on every run, exhaustively for one
-        gene with <= 2 exons on [0,7] x every CDS clip x strand x start frame x flavour x parser mode.
-        FULL STATEMENT: for single-strand collections of genes with ONE transcript each, unique effective locus tags
-        (locus-tag / hybrid) or a position-sorted written list (sorted), CDS blocks not separated by 0-bp gaps (F-C12c),
-        `okRoundTrip fl c (ans (parseModel m (writeModel ⟨fl, true, false, rule⟩ c))) = true` with
-        `rule.emitsCodonStart = true`.
+    T2  roundtrip_gene_models         `parseModelWith rule m (writeModel c)` satisfies every clause of (b)
+        roundtrip_current_code        (`Spec.Gb.okRoundTrip`: count, gene id / symbol / locus tag, strand, exons — CDS blocks as
+                                      exons in prokaryotic flavour —, CDS blocks, one reading frame from the source's start
+                                      frame through `/codon_start`, transcript id, protein id, biotype, transcript symbol kept
+                                      as `/transcript_name`) for single-strand collections of genes with ONE transcript each
+                                      and pairwise different effective locus tags, in all three modes (Sorted on a fixed
+                                      point of its own sort), for CDSs whose blocks are separated by real gaps (F-C12c is
+                                      the recorded exception of the code as it is; no such condition with the block-wise
+                                      clip).  Uses C05's T4 (`generated_frames_are_one_reading_frame`, via
+                                      `Proofs.constructFrames_ok`) for the frames; the clip is computed directly on the
+                                      C02 model `Model.intersection` (C02's `intersection_spec` speaks about covered
+                                      positions, the round trip needs the block structure).
+    T3  grouping_modes_agree          on feature lists made of one chain per locus tag (gene, then mRNA/CDS records, or one
+        parse_modes_agree             non-coding transcript), pairwise different tags IN ANY ORDER, Sorted (on a fixed point
+                                      of its own sort), LocusTag and Hybrid form the same groups up to order, hence parse
+                                      the same gene models up to order: the tag sort (a stable merge sort) keeps every chain
+                                      contiguous (`Proofs.Gb.sortPairs_general`).
+        grouping_modes_equal_of_ascending_tags / parse_modes_equal_of_ascending_tags
+                                      when the tags increase along the file the three results are EQUAL (same order).
+    K   constants_match_generated     the GenBank feature keys / qualifier names hand-copied into the two Model files are
+                                      the regenerated `Gen.genbank_*` tables (io/genbank/constants.py).
 -/
 import BioCantor.Proofs.GbWriteFc
 import BioCantor.Proofs.GbModes
 import BioCantor.Proofs.GbRoundTrip
+import BioCantor.Proofs.GbRtColl
 namespace BioCantor.Props.C12
 open BioCantor BioCantor.Spec.Qual BioCantor.Spec.Gb BioCantor.Model.Gb BioCantor.Proofs.Gb
 
@@ -93,32 +99,85 @@ theorem cds_record_translation (cfg : Cfg) (seq : Option Str) (t : Tx) (q : QDic
   subst hc
   exact qualGet_dictSet_same _ _ _
 
-/-- **T3** (grouping; PARTIAL, see the header) on tagged chains that are a fixed point of the parser's position sort
-    the three strategies form the same groups: one per chain, holding the chain's `gene` record, its transcript
-    records (the first one only when there are several transcripts AND several CDSs) and its CDS records. -/
-theorem grouping_modes_agree_partial (tch : List (Str × List Rec)) (h : ModesInput tch) (m : Mode) :
+/-- **T3** (grouping, any tag order): on tagged chains with pairwise different tags every strategy forms exactly one
+    group per chain — Sorted (on a fixed point of its own position sort) in file order, LocusTag and Hybrid in tag
+    order — each holding the chain's `gene` record, its transcript records (the first one only when there are several
+    transcripts AND several CDSs) and its CDS records. -/
+theorem grouping_modes_agree (tch : List (Str × List Rec)) (h : ModesInputAny tch) (m : Mode)
+    (hsorted : m = .sorted → sortByPositionAndType (recsOf tch) = recsOf tch) :
+    ∃ gs, extract m (recsOf tch) = .ok ⟨gs, 0⟩ ∧ gs.Perm (chainGroups tch) :=
+  extract_modes_any tch h m hsorted
+
+/-- **T3** (gene models, any tag order): what one strategy parses, every other strategy parses too, and the two lists
+    of gene models are permutations of each other — for either parser rule. -/
+theorem parse_modes_agree (rule : ParserRule) (tch : List (Str × List Rec)) (h : ModesInputAny tch) (m m' : Mode)
+    (hs : m = .sorted → sortByPositionAndType (recsOf tch) = recsOf tch)
+    (hs' : m' = .sorted → sortByPositionAndType (recsOf tch) = recsOf tch)
+    (a : List PGene) (ha : parseModelWith rule m (recsOf tch) = .ok a) :
+    ∃ b, parseModelWith rule m' (recsOf tch) = .ok b ∧ a.Perm b :=
+  parse_modes_any rule tch h m m' hs hs' a ha
+
+/-- **T3** when the tags increase along the file: the three strategies form the SAME list of groups. -/
+theorem grouping_modes_equal_of_ascending_tags (tch : List (Str × List Rec)) (h : ModesInput tch) (m : Mode) :
     extract m (recsOf tch) = .ok ⟨chainGroups tch, 0⟩ :=
   extract_modes_agree tch h m
 
-/-- **T3** (gene models; PARTIAL): hence the parse does not depend on the strategy, for either parser rule. -/
-theorem parse_modes_agree_partial (rule : ParserRule) (tch : List (Str × List Rec)) (h : ModesInput tch) (m m' : Mode) :
-    parseModelWith rule m (recsOf tch) = parseModelWith rule m' (recsOf tch) :=
-  parse_modes_agree rule tch h m m'
+/-- **T3** when the tags increase along the file: the parse does not depend on the strategy at all. -/
+theorem parse_modes_equal_of_ascending_tags (rule : ParserRule) (tch : List (Str × List Rec)) (h : ModesInput tch)
+    (m m' : Mode) : parseModelWith rule m (recsOf tch) = parseModelWith rule m' (recsOf tch) :=
+  BioCantor.Proofs.Gb.parse_modes_agree rule tch h m m'
 
-/-- **T2, proved part** (`_partial`): what the writer model produces for a collection of well-formed genes with ONE
-    transcript each and an effective locus tag is a list of chains `gene, [mRNA,] CDS` / `gene, <non-coding key>`, one
-    per gene, each carrying that gene's tag; when the tags increase along the file, every record passes
-    `validate_seqfeature` and the list is a fixed point of the parser's position sort, Sorted, LocusTag and Hybrid all
-    regroup it gene by gene (`chainGroups`: the gene record, its transcript record, its CDS record).
-    MISSING for the full T2 (see the header): the conversion of one such group into the gene model
-    (`convertGroup` / `toGeneModel`: exon sort, CDS clipping, frames, identifiers) equals `Spec.Gb.expectedGene`. -/
-theorem written_collection_regrouped_partial (cfg : Cfg) (c : Coll) (rs : List Rec) (hw : writeModel cfg c = .ok rs)
-    (hall : ∀ it ∈ c.items, GeneItemOK it)
-    (hasc : ((childrenOf c).filterMap itemTag).Pairwise (fun a b => strLt a b = true))
-    (hvalid : ∀ r ∈ rs, validFeature r = true) (hsorted : sortByPositionAndType rs = rs) (m : Mode) :
-    ∃ tch : List (Str × List Rec), rs = recsOf tch ∧ tch.length = c.items.length ∧
-      extract m rs = .ok ⟨chainGroups tch, 0⟩ :=
-  written_collection_regrouped cfg c rs hw hall hasc hvalid hsorted m
+/-- **T2**: `parse (write c)` gives the gene models the documentation promises — for a non-empty collection of
+    single-strand genes with ONE transcript each (`RtItem`: well formed, effective locus tag, source qualifiers not using
+    the format's reserved keys, coding transcripts not typed as an RNA key, CDS inside the exon span with blocks
+    separated by real gaps — or any blocks with the block-wise clip —, start frame inside the 5'-most CDS block),
+    pairwise different effective locus tags, `/codon_start` written; in all three modes (Sorted: on a fixed point of
+    its own sort); any flavour, `force_strand`, `update_translations`, part order of minus-strand records. -/
+theorem roundtrip_gene_models (cfg : Cfg) (c : Coll) (rs : List Rec) (prule : ParserRule) (m : Mode)
+    (hw : writeModel cfg c = .ok rs) (hem : cfg.rule.emitsCodonStart = true) (hne : c.items ≠ [])
+    (hall : ∀ it ∈ c.items, RtItem prule it)
+    (hdist : distinctStrs ((genesOf c).filterMap geneTagWritten) = true)
+    (hsorted : m = .sorted → sortByPositionAndType rs = rs) :
+    ∃ os, parseModelWith prule m rs = .ok os ∧ okRoundTrip cfg.flavor c (some os) = true := by
+  obtain ⟨os, h1, h2⟩ := collection_roundtrip cfg c rs prule m hw hem hne hall hdist hsorted
+  exact ⟨os, h1, by unfold okRoundTrip; rw [h2]; rfl⟩
+
+/-- **T2 for the code as it is** (`parseModel` = `find_cds_interval` through `intersection`, writer with
+    `/codon_start`): the statement above for CDSs without 0-bp gaps. -/
+theorem roundtrip_current_code (fl : Flavor) (force trans : Bool) (c : Coll) (rs : List Rec) (m : Mode)
+    (hw : writeModel ⟨fl, force, trans, currentWriterRule⟩ c = .ok rs) (hne : c.items ≠ [])
+    (hall : ∀ it ∈ c.items, RtItem currentParserRule it)
+    (hdist : distinctStrs ((genesOf c).filterMap geneTagWritten) = true)
+    (hsorted : m = .sorted → sortByPositionAndType rs = rs) :
+    ∃ os, parseModel m rs = .ok os ∧ okRoundTrip fl c (some os) = true :=
+  roundtrip_gene_models ⟨fl, force, trans, currentWriterRule⟩ c rs currentParserRule m hw rfl hne hall hdist hsorted
+
+/-- **K** the constants of io/genbank/constants.py that the two Model files hard-code are the regenerated tables
+    (`Gen.genbank_*`, emitted from the source on every run): a changed constant in /repo breaks this proof. -/
+theorem constants_match_generated :
+    transcriptFeatureValues = Gen.genbank_TranscriptFeatures.map (·.2) ∧
+    transcriptTypes = Gen.genbank_TranscriptFeatures.map (·.2) ∧
+    nonCodingTypes = Gen.genbank_NonCodingTranscriptFeatures.map (·.2) ∧
+    rnaFeatureTypes = Gen.genbank_NonCodingTranscriptFeatures.map (·.2) ∧
+    genbankGeneFeatures.isPerm Gen.genbank_GENBANK_GENE_FEATURES = true ∧
+    Gen.genbank_GeneFeatures = [("GENE".toList, tyGene)] ∧
+    Gen.genbank_MetadataFeatures = [("SOURCE".toList, tySource)] ∧
+    Gen.genbank_FeatureCollectionFeatures = [("FEATURE_COLLECTION".toList, sMiscFeature)] ∧
+    Gen.genbank_FeatureIntervalFeatures = [("FEATURE_INTERVAL".toList, sFeatInterval)] ∧
+    Gen.genbank_GeneIntervalFeatures.lookup "CDS".toList = some tyCDS ∧
+    Gen.genbank_TranscriptFeatures.lookup "CODING_TRANSCRIPT".toList = some tyMRNA ∧
+    Gen.genbank_TranscriptFeatures.lookup "NONCODING_TRANSCRIPT".toList = some tyNcRNA ∧
+    Gen.genbank_TranscriptFeatures.lookup "MISC_RNA".toList = some sMiscRNA ∧
+    Gen.genbank_KnownQualifiers.lookup "LOCUS_TAG".toList = some Model.Gb.kLocusTag ∧
+    Gen.genbank_KnownQualifiers.lookup "CODON_START".toList = some Model.Gb.kCodonStart ∧
+    Gen.genbank_KnownQualifiers.lookup "GENE".toList = some kGene ∧
+    Gen.genbank_KnownQualifiers.lookup "GENE_ID".toList = some kGeneId ∧
+    Gen.genbank_KnownQualifiers.lookup "TRANSCRIPT_ID".toList = some kTranscriptId ∧
+    Gen.genbank_KnownQualifiers.lookup "PROTEIN_ID".toList = some kProteinId ∧
+    Gen.genbank_KnownQualifiers.lookup "PRODUCT".toList = some "product".toList ∧
+    Gen.genbank_GenbankFlavor.map (·.1) = ["PROKARYOTIC".toList, "EUKARYOTIC".toList] ∧
+    Gen.genbank_GenBankParserType.map (·.1) = ["SORTED".toList, "LOCUS_TAG".toList, "HYBRID".toList] := by
+  decide +kernel
 
 /-! ### the hypotheses are satisfiable by non-trivial inputs -/
 
@@ -204,6 +263,30 @@ example : writeModel exCfg2 exColl2 = .ok exRs2 ∧ (∀ it ∈ exColl2.items, G
     exact List.mergeSort_of_pairwise (by decide +kernel)
   · decide +kernel
 
+/-- the two genes of `exColl2` are round-trip genes for the code as it is, with different effective tags -/
+example : (∀ it ∈ exColl2.items, RtItem currentParserRule it) ∧ exColl2.items ≠ [] ∧
+    distinctStrs ((genesOf exColl2).filterMap geneTagWritten) = true := by
+  refine ⟨?_, by simp [exColl2], by decide +kernel⟩
+  intro it hit
+  simp only [exColl2, List.mem_cons, List.not_mem_nil, or_false] at hit
+  rcases hit with rfl | rfl
+  · refine ⟨exGene, exTx, "g1".toList, rfl, ⟨by decide +kernel, rfl, by decide +kernel,
+      by unfold NoReserved; decide +kernel, by unfold NoReserved; decide +kernel, by decide +kernel, ?_,
+      Or.inl (by decide +kernel), by decide +kernel⟩⟩
+    intro e0 el h0 hl b hb
+    simp only [exTx, List.head?_cons, Option.some.injEq] at h0
+    have hl' : el = (30, 42) := by
+      have : exTx.exons.getLast? = some (30, 42) := by decide +kernel
+      rw [this] at hl; exact (Option.some.inj hl).symm
+    subst h0; subst hl'
+    simp only [exTx, List.mem_cons, List.not_mem_nil, or_false] at hb
+    rcases hb with rfl | rfl <;> exact ⟨by decide, by decide⟩
+  · refine ⟨exGene2', exTx2, "h_2".toList, rfl, ⟨by decide +kernel, rfl, by decide +kernel,
+      by unfold NoReserved; decide +kernel, by unfold NoReserved; decide +kernel, by decide +kernel, ?_,
+      Or.inl (by decide +kernel), by decide +kernel⟩⟩
+    intro e0 el _ _ b hb
+    simp [exTx2] at hb
+
 /-- two tagged chains (gene, mRNA, CDS on the minus strand; gene, tRNA) in file order = tag order -/
 def exRec (ty : String) (st : Strand) (parts : List Blk) (tag : String) : Rec :=
   { type := ty.toList, strand := st, parts := parts, quals := [("locus_tag".toList, [tag.toList])] }
@@ -239,6 +322,43 @@ example : ModesInput exChains where
     have : ∀ x ∈ recsOf exChains, validFeature x = true := by decide +kernel
     exact this r hr
   sorted := by
+    unfold sortByPositionAndType
+    exact List.mergeSort_of_pairwise (by decide +kernel)
+
+/-- the same chains with the tags in DEcreasing file order satisfy the hypotheses of the order-free T3 -/
+def exChainsRev : List (Str × List Rec) :=
+  [("LT_9".toList, [exRec "gene" .minus [(10, 42)] "LT_9", exRec "mRNA" .minus [(10, 20), (30, 42)] "LT_9",
+                    exRec "CDS" .minus [(12, 20), (30, 40)] "LT_9"]),
+   ("LT_2".toList, [exRec "gene" .plus [(50, 60)] "LT_2", exRec "tRNA" .plus [(50, 60)] "LT_2"])]
+
+example : ModesInputAny exChainsRev ∧ sortByPositionAndType (recsOf exChainsRev) = recsOf exChainsRev where
+  left :=
+    { tagged :=
+        { chains := by
+            intro p hp
+            simp only [exChainsRev, List.mem_cons, List.not_mem_nil, or_false] at hp
+            rcases hp with rfl | rfl
+            · exact ⟨by simp, fun g hg => by simp only [List.head?_cons, Option.some.injEq] at hg; subst hg; decide +kernel,
+                Or.inl (by
+                  intro r hr
+                  simp only [List.tail_cons, List.mem_cons, List.not_mem_nil, or_false] at hr
+                  rcases hr with rfl | rfl
+                  · exact Or.inl (by decide +kernel)
+                  · exact Or.inr (by decide +kernel))⟩
+            · exact ⟨by simp, fun g hg => by simp only [List.head?_cons, Option.some.injEq] at hg; subst hg; decide +kernel,
+                Or.inr ⟨_, rfl, by decide +kernel⟩⟩
+          tags := by
+            intro p hp r hr
+            simp only [exChainsRev, List.mem_cons, List.not_mem_nil, or_false] at hp
+            rcases hp with rfl | rfl <;>
+              (simp only [List.mem_cons, List.not_mem_nil, or_false] at hr
+               rcases hr with rfl | rfl | rfl <;> rfl)
+          distinct := by decide +kernel }
+      valid := by
+        intro r hr
+        have : ∀ x ∈ recsOf exChainsRev, validFeature x = true := by decide +kernel
+        exact this r hr }
+  right := by
     unfold sortByPositionAndType
     exact List.mergeSort_of_pairwise (by decide +kernel)
 
